@@ -6,7 +6,7 @@ import itertools
 from .. import core
 from ..core import Prop, Violation
 from ._coord import (CoordMixin, gen_cfg, gen_exec, gen_multi_kill, gen_ended_in_callback, gen_two_systems, gen_nest,
-                     CP_SCRIPTS)
+                     gen_cnest, cnest_table, gen_tracked, CP_SCRIPTS)
 
 FINDING = "C14-work-after-kill-in-g1-checkpoint"
 
@@ -91,6 +91,10 @@ class C14(CoordMixin, Prop):
             yield gen_two_systems(rng)
         for i in range(max(10, n // 60)):
             yield gen_nest(rng)
+        for i in range(max(30, n // 30)):
+            yield gen_cnest(rng)
+        for i in range(max(15, n // 60)):
+            yield gen_tracked(rng)
         # timeout boundaries: below / at / above each limit
         for i in range(max(6, n // 100)):
             L = rng.choice([1, 5, 10])
@@ -179,8 +183,10 @@ class C14(CoordMixin, Prop):
                             lines.append(f"cell 1 3 {rs} {cps} {work} {val} {post}")
                         lines.append("exec 1 3 1,2 bbbb n:ok yes")
                         cases.append({"lines": lines, "note": "exhaustive"})
+        cases += cnest_table()
         return [{"name": f"request lists of length <= {L} over 2 resources x foreign-holder patterns x every fault "
-                         f"position, followed by a second operation", "cases": cases}]
+                         f"position, followed by a second operation; search-only: a nested operation started from every "
+                         f"callback position x cell / execute_operation layers x same / other agent", "cases": cases}]
 
     # --- oracle: the property text on the implementation's observations ------------------------------------
     def oracle(self, case, obs, extra):
@@ -307,6 +313,44 @@ class C14(CoordMixin, Prop):
                         if any(x == a for x, _ in l["waiting"]):
                             out.append(Violation("not_waiting_after_exit", f"op{a} not in waiting list of r{r}",
                                                  f"waiting={l['waiting']}", idx))
+            if k == "cnest" and "nest" in info and len(t) == 11:
+                # search-only (a callback of o starts operation i through the cell layer / execute_operation)
+                o_, i_ = info["nest"]
+                if "raised" in info:
+                    out.append(Violation("returns", "the call returns a result object", f"raise:{info['raised']}", idx))
+                if "inner_raised" in info:
+                    out.append(Violation("returns", "the nested call returns a result object", f"raise:{info['inner_raised']}", idx))
+                for a in {o_, i_}:
+                    if a in st["active"]:
+                        out.append(Violation("not_active_after_exit", f"op{a} not in active_operations", "still listed", idx))
+                    for r, l in st["locks"].items():
+                        if l["owner"] == a:
+                            out.append(Violation("no_leak_on_any_exit", f"r{r} not owned by op{a} after the nested calls",
+                                                 f"owner=op{a} hold_count={l['hold']}", idx))
+                        if any(x == a for x, _ in l["waiting"]):
+                            out.append(Violation("not_waiting_after_exit", f"op{a} not in waiting list of r{r}",
+                                                 f"waiting={l['waiting']}", idx))
+                if o_ != i_ and prev is not None:        # the same id twice is an id reuse while active: not judged further
+                    req = [] if t[3] == "-" else t[3].split(",")
+                    ireq = [] if t[6] == "-" else t[6].split(",")
+                    p_, ip_ = int(t[2]), int(t[5])
+                    # the one legitimate way to lose a resource while working: the nested operation asks for it with a
+                    # higher priority and the resource allows preemption
+                    may_lose = {r for r in req if r in ireq and prev["locks"].get(r, {}).get("pre") and ip_ > p_}
+                    smp = info.get("samples", [])
+                    for who, labels in (("outer", ("before", "after", "work")), ("inner", ("inner",))):
+                        n_runs = sum(1 for lab, _ in smp if lab in labels and lab != "after")
+                        if n_runs > 1:
+                            out.append(Violation("work_at_most_once", "<= 1 call", f"{who} work_fn ran {n_runs} times", idx))
+                    for lab, own in smp:
+                        rs = ireq if lab == "inner" else req
+                        for r, c in zip(rs, own):
+                            if c != "1" and not (lab != "inner" and r in may_lose):
+                                out.append(Violation("work_only_with_all_resources",
+                                                     f"r{r} owned by the operation whose work_fn is running ({lab})",
+                                                     f"own={own} (requested {','.join(rs)})", idx))
+                    if info.get("inner_success") and t[10] != "yes":
+                        out.append(Violation("success_iff_both", "nested success=False", "success=True, validate_fn said no", idx))
             # every operation named in a returned termination event is terminated
             for a, why in list(info.get("events", [])) + list(info.get("work_events", [])):
                 if a in st["active"]:
